@@ -66,9 +66,15 @@ VOCAB(h_iq, ARR("iq", "error", "bind", "ping", "text", "item-not-found", "zz", "
         if (i >= n1) break; \
         unsigned b = 2 + 13 * i; \
         c[i].make(v, &root, int(vp_case_u(b, 8) % v.nTags), int(vp_case_u(b + 3, 8) % v.nNss)); vp_c02_append(&root.el, &c[i].el); \
-        if (vp_case_bool(b + 6)) { g[i].make(v, &c[i], int(vp_case_u(b + 7, 8) % v.nTags), int(vp_case_u(b + 10, 8) % v.nNss)); vp_c02_append(&c[i].el, &g[i].el); } \
+        if (vp_case_bool(b + 6)) { g[i].make(v, &c[i], int(vp_case_u(b + 7, 8) % v.nTags), int(vp_case_u(b + 10, 8) % v.nNss)); vp_c02_append(&c[i].el, &g[i].el); if (vp_case_bool(28 + i)) forceValidAddress(g[i].el); } \
     } \
     if (ADMIT) { STANZA_FIXPOINT(T, "stanza", root.el) admitted = true; } \
+}
+// VP_CASE bit 28 + i: the grandchild of child i carries non-empty type= and jid= (arbitrary units, lengths 2 and 3): a concretely VALID <address/>
+static void forceValidAddress(QDomElement &el)
+{
+    QString nt = QStringLiteral("type"), nj = QStringLiteral("jid"), vt, vj; vp_c02_fixed_text(&vt, 2); vp_c02_fixed_text(&vj, 3);
+    vp_c02_force_attr(&el, &nt, &vt); vp_c02_force_attr(&el, &nj, &vj);
 }
 // necessary condition of the fix point that avoids the second serialization: re-parsing the serialized stanza finds as many extension elements
 #define STANZA_EXTCOUNT(T, name, t) { T x; x.parse(t); VpWriter w1; x.toXml(w1.writer()); QDomElement t1 = w1.root(); \
@@ -82,7 +88,7 @@ VOCAB(h_iq, ARR("iq", "error", "bind", "ping", "text", "item-not-found", "zz", "
         if (i >= n1) break; \
         unsigned b = 2 + 13 * i; \
         c[i].make(v, &root, int(vp_case_u(b, 8) % v.nTags), int(vp_case_u(b + 3, 8) % v.nNss)); vp_c02_append(&root.el, &c[i].el); \
-        if (vp_case_bool(b + 6)) { g[i].make(v, &c[i], int(vp_case_u(b + 7, 8) % v.nTags), int(vp_case_u(b + 10, 8) % v.nNss)); vp_c02_append(&c[i].el, &g[i].el); } \
+        if (vp_case_bool(b + 6)) { g[i].make(v, &c[i], int(vp_case_u(b + 7, 8) % v.nTags), int(vp_case_u(b + 10, 8) % v.nNss)); vp_c02_append(&c[i].el, &g[i].el); if (vp_case_bool(28 + i)) forceValidAddress(g[i].el); } \
     } \
     STANZA_EXTCOUNT(T, "stanza", root.el) \
 }
@@ -91,6 +97,14 @@ extern "C" void h_iq_extcount() { WARM() iqShapeIqExt(h_iq_v, 0); }
 IQSHAPE(iqShapeIq, QXmppIq, true)
 IQSHAPE(iqShapeBind, QXmppBindIq, QXmppBindIq::isBindIq(root.el))
 IQSHAPE(iqShapePing, QXmppPingIq, QXmppPingIq::isPingIq(root.el))
+// second vocabulary for the generic IQ: the child names the BASE class looks at (QXmppStanza::parse: <error/>, XEP-0033 <addresses/> with <address type= jid= desc=
+// delivered=/> children; QXmppExtendedAddress::isValid() needs non-empty type and jid, both symbolic incl. empty/absent)
+#define NS_ADDR "http://jabber.org/protocol/address"
+VOCAB(h_iqa, ARR("iq", "error", "addresses", "address", "bind", "zz", "item-not-found", "text"), ARR("", NS_CLIENT, NS_STANZA, NS_ADDR, NS_BIND),
+      ARR("id", "type", "jid", "desc", "delivered"), ARR("get", "result", "error", "cancel", "true", "to", "cc"))
+extern "C" void h_iqa() { WARM() c02_warm_QXmppStanza(); bool admitted = false; iqShapeIq(h_iqa_v, 0, admitted); vp_assume(admitted); }
+extern "C" void h_iqa_extcount() { WARM() iqShapeIqExt(h_iqa_v, 0); }
+extern "C" void h_bindiqa() { WARM() bool admitted = false; iqShapeBind(h_iqa_v, 0, admitted); vp_assume(admitted); }
 extern "C" void h_iq() { WARM() bool admitted = false; iqShapeIq(h_iq_v, 0, admitted); vp_assume(admitted); }
 extern "C" void h_bind_iq() { WARM() bool admitted = false; iqShapeBind(h_iq_v, 0, admitted); vp_assume(admitted); }
 extern "C" void h_ping_iq() { WARM() bool admitted = false; iqShapePing(h_iq_v, 0, admitted); vp_assume(admitted); }
